@@ -165,3 +165,21 @@ func Slots(root **Spec) []**Spec {
 
 // IsLeafSpec tells whether the node has no sub-errors.
 func (s *Spec) IsLeafSpec() bool { return s.C == nil && len(s.X) == 0 }
+
+// WellFormed tells whether the tree satisfies the structural
+// preconditions of its kinds (used by the reducer).
+func (s *Spec) WellFormed() bool {
+	for _, n := range s.Nodes() {
+		switch n.K {
+		case "wrapfgosyntax", "wrapferr", "mark", "secondary", "combine", "newfwerr":
+			if len(n.X) != 1 || n.C == nil {
+				return false
+			}
+		case "goerrorfmulti":
+			if len(n.X) != 2 {
+				return false
+			}
+		}
+	}
+	return true
+}
